@@ -52,13 +52,10 @@ ADVERSARIAL_SEEDS = [
 PASSES = ["suppress_kinds", "suppress_alias_pos", "suppress_posonlyargs", "backport_all_constants",
           "simplify_negative_literals", "unquote"]
 
-# (the former findings F09 `async def` body order and F11 b"it's" -> Num are repaired in /repo: a reappearance is an
-# unexplained violation)
+# (the former findings F09 `async def` body order, F11 b"it's" -> Num, F15a/d `/kind=` inside a value and F15c quotes
+# inside a bytes repr are repaired in /repo: a reappearance is an unexplained violation)
 SIG = {
-    "str-contains-/kind=": "C15:str-constant-containing-/kind=",
     "str-contains-,ctx=": "C15:str-constant-containing-,ctx=",
-    "bytes-contains-=quote": "C15:bytes-constant-containing-=quote",
-    "bytes-contains-/kind=": "C15:bytes-constant-containing-/kind=",
 }
 
 
@@ -73,7 +70,8 @@ class _Neutralise(ast.NodeTransformer):
 
     def __init__(self, keep):
         # `async def` and double-quoted bytes reprs are no longer quirks (repaired in /repo): never neutralised
-        self.keep = set(keep) | {"async-def", "bytes-repr-double-quoted"}
+        self.keep = set(keep) | {"async-def", "bytes-repr-double-quoted", "str-contains-/kind=",
+                                 "bytes-contains-=quote", "bytes-contains-/kind="}
 
     def visit_AsyncFunctionDef(self, n):
         self.generic_visit(n)
